@@ -4,86 +4,62 @@ From Rux Require Import Base BaseFacts Str Consts Bind.
 Theorem source_query meth ctype : has_body meth = false -> auto_source meth ctype = SQuery.
 Proof. intros H. unfold auto_source. rewrite H. reflexivity. Qed.
 
-(* parameters: nothing, or ';' followed by text without '/' *)
-Definition params_ok (ps : str) : Prop :=
-  ps = [] \/ exists r, ps = 59%N :: r /\ forallb (fun c => negb (N.eqb c slash)) r = true.
+(* parameters: nothing, or ';' followed by ANY text *)
+Definition params_ok (ps : str) : Prop := ps = [] \/ exists r, ps = 59%N :: r.
+Definition semi_free (s : str) : bool := forallb (fun c => negb (N.eqb c 59%N)) s.
 
-(* a text without '/' contains no string that starts with '/' *)
-Lemma contains_no_slash sub' r :
-  forallb (fun c => negb (N.eqb c slash)) r = true -> contains (slash :: sub') r = false.
+Lemma upto_semi_free a : semi_free a = true -> upto_semi a = a.
 Proof.
-  induction r as [|x r IH]; intros H.
+  induction a as [|c a IH]; intros H; [reflexivity|].
+  cbn [semi_free forallb] in H. apply andb_true_iff in H. destruct H as [Hc Ha].
+  cbn [upto_semi]. apply negb_true_iff in Hc. rewrite Hc. f_equal. exact (IH Ha).
+Qed.
+
+Lemma upto_semi_app a ps : semi_free a = true -> upto_semi (a ++ 59%N :: ps) = a.
+Proof.
+  induction a as [|c a IH]; intros H.
   - reflexivity.
-  - cbn [forallb] in H. apply andb_true_iff in H. destruct H as [Hx Hr].
-    cbn [contains has_prefix]. rewrite (IH Hr).
-    apply negb_true_iff in Hx. rewrite N.eqb_sym in Hx. rewrite Hx. reflexivity.
+  - cbn [semi_free forallb] in H. apply andb_true_iff in H. destruct H as [Hc Ha].
+    cbn [app upto_semi]. apply negb_true_iff in Hc. rewrite Hc. f_equal. exact (IH Ha).
 Qed.
 
-(* a prefix test with a ';'-free pattern cannot run into the parameters *)
-Lemma has_prefix_app_params sub : forall b ps,
-  forallb (fun c => negb (N.eqb c 59%N)) sub = true ->
-  (ps = [] \/ exists r, ps = 59%N :: r) ->
-  has_prefix sub (b ++ ps) = has_prefix sub b.
+(* the parameters of a Content-Type never influence the choice *)
+Theorem source_params_irrelevant meth a ps : semi_free a = true ->
+  auto_source meth (a ++ 59%N :: ps) = auto_source meth a.
 Proof.
-  induction sub as [|c sub IH]; intros b ps Hs Hp.
-  - reflexivity.
-  - cbn [forallb] in Hs. apply andb_true_iff in Hs. destruct Hs as [Hc Hs].
-    destruct b as [|y b].
-    + cbn [app]. destruct Hp as [-> | [r ->]].
-      * reflexivity.
-      * cbn [has_prefix]. apply negb_true_iff in Hc. rewrite Hc. reflexivity.
-    + cbn [app has_prefix]. rewrite (IH b ps Hs Hp). reflexivity.
+  intros H. unfold auto_source, media_type. rewrite (upto_semi_app a ps H), (upto_semi_free a H). reflexivity.
 Qed.
 
-Lemma contains_app_params sub a ps : (exists sub', sub = slash :: sub') ->
-  forallb (fun c => negb (N.eqb c 59%N)) sub = true ->
-  params_ok ps -> contains sub (a ++ ps) = contains sub a.
-Proof.
-  intros [sub' ->] Hs Hp.
-  assert (Hp' : ps = [] \/ exists r, ps = 59%N :: r).
-  { destruct Hp as [-> | (r & -> & _)]; [left; reflexivity | right; exists r; reflexivity]. }
-  induction a as [|x a IH].
-  - cbn [app]. destruct Hp as [-> | (r & -> & Hr)].
-    + reflexivity.
-    + cbn [contains has_prefix]. rewrite (contains_no_slash sub' r Hr). reflexivity.
-  - change ((x :: a) ++ ps) with (x :: (a ++ ps)).
-    cbn [contains]. rewrite IH.
-    change (x :: (a ++ ps)) with ((x :: a) ++ ps).
-    f_equal. exact (has_prefix_app_params (slash :: sub') (x :: a) ps Hs Hp').
-Qed.
-
-(* for each documented media type, with any admissible parameters, the code picks the documented source *)
+(* for each documented media type, with any parameters, the code picks the documented source *)
 Theorem source_documented meth mt ps : has_body meth = true -> params_ok ps ->
   In mt [mt_urlencoded; mt_multipart; mt_json; mt_xml; mt_textxml] ->
   auto_source meth (mt ++ ps) = doc_source mt.
 Proof.
-  intros Hb Hp Hin. unfold auto_source. rewrite Hb. cbn [negb].
-  assert (E1 : contains m_urlencoded (mt ++ ps) = contains m_urlencoded mt).
-  { apply contains_app_params; [eexists; reflexivity | reflexivity | exact Hp]. }
-  assert (E2 : contains m_formdata (mt ++ ps) = contains m_formdata mt).
-  { apply contains_app_params; [eexists; reflexivity | reflexivity | exact Hp]. }
-  assert (E3 : contains m_json (mt ++ ps) = contains m_json mt).
-  { apply contains_app_params; [eexists; reflexivity | reflexivity | exact Hp]. }
-  assert (E4 : contains m_xml (mt ++ ps) = contains m_xml mt).
-  { apply contains_app_params; [eexists; reflexivity | reflexivity | exact Hp]. }
-  rewrite E1, E2, E3, E4. clear E1 E2 E3 E4.
-  cbn [In] in Hin.
-  destruct Hin as [<- | [<- | [<- | [<- | [<- | []]]]]]; vm_compute; reflexivity.
+  intros Hb Hp Hin.
+  assert (Hf : semi_free mt = true).
+  { cbn [In] in Hin. destruct Hin as [<- | [<- | [<- | [<- | [<- | []]]]]]; vm_compute; reflexivity. }
+  assert (E : auto_source meth (mt ++ ps) = auto_source meth mt).
+  { destruct Hp as [-> | [r ->]]; [rewrite app_nil_r; reflexivity | exact (source_params_irrelevant meth mt r Hf)]. }
+  rewrite E. unfold auto_source. rewrite Hb. cbn [negb].
+  cbn [In] in Hin. destruct Hin as [<- | [<- | [<- | [<- | [<- | []]]]]]; vm_compute; reflexivity.
 Qed.
 
-(* a Content-Type that contains none of the four markers is an error *)
+(* a Content-Type whose media type has none of the four subtypes is an error *)
 Theorem source_unknown meth ctype : has_body meth = true ->
-  contains m_urlencoded ctype = false -> contains m_formdata ctype = false ->
-  contains m_json ctype = false -> contains m_xml ctype = false ->
+  has_suffix m_urlencoded (media_type ctype) = false -> has_suffix m_formdata (media_type ctype) = false ->
+  has_suffix m_json (media_type ctype) = false -> has_suffix m_xml (media_type ctype) = false ->
   auto_source meth ctype = SError.
 Proof.
-  intros Hb H1 H2 H3 H4. unfold auto_source. rewrite Hb, H1, H2, H3, H4. reflexivity.
+  intros Hb H1 H2 H3 H4. unfold auto_source. rewrite Hb. cbn [negb]. cbv zeta. rewrite H1, H2, H3, H4. reflexivity.
 Qed.
 
-(* known finding K5: the tests are substring tests *)
+(* finding F20 (former K5, repaired): the tests were substring tests on the whole header value *)
+Definition ct_jsonx : str := mt_json ++ [120%N].                                                   (* application/jsonx *)
+Definition ct_plain_param : str := [116;101;120;116;47;112;108;97;105;110;59;32;97;61]%N ++ m_json.   (* text/plain; a=/json *)
 Example substring_dispatch_refuted :
-  auto_source POST (mt_json ++ [120%N]) = SJson /\ doc_source (mt_json ++ [120%N]) = SError.   (* application/jsonx *)
-Proof. split; vm_compute; reflexivity. Qed.
+  auto_source_legacy POST ct_jsonx = SJson /\ doc_source ct_jsonx = SError /\ auto_source POST ct_jsonx = SError /\
+  auto_source_legacy POST ct_plain_param = SJson /\ auto_source POST ct_plain_param = SError.
+Proof. repeat split; vm_compute; reflexivity. Qed.
 
 (* decode-then-validate *)
 Theorem bind_validated V I (decode : I -> option V) (valid : V -> bool) on i v :
